@@ -266,6 +266,17 @@ impl Exec {
                     guarded(|| *a.gradient_mut() = None)?;
                 }
             }
+            Step::ProbeSole { h } => {
+                let a = self.slots[*h].take().expect("dead slot");
+                let dims = a.dimensions().to_vec();
+                let tracked = probe_tracked(&a);
+                let grad = a.replace_gradient();
+                let v: Vec<Float> = guarded(move || Vec::<Float>::from(a)).map_err(|p| format!("not the sole owner of its buffer: {}", p))?;
+                let b = Array::from((dims, v));
+                let b = if tracked { b.tracked() } else { b };
+                *b.gradient_mut() = grad;
+                self.slots[*h] = Some(b);
+            }
             Step::Update { lr, params } => {
                 let mut taken: Vec<Array> = params.iter().map(|&p| self.slots[p].take().expect("dead slot")).collect();
                 let r = guarded(|| {
